@@ -18,7 +18,9 @@
       `GetState` / `GetCommittedState`, the refund counter, the log count and the access list answer as the reference does;
     * `CreateAccount` preserves the same relation wherever the store holds no slots under the address (the case `evm.create`
       allows); with persisted slots the two implementations differ by design of Nibiru's object cache (see DESIGN.md);
-  NOT proved: the simulation across nested snapshots interleaved with further writes, and `Commit` on the reference
+    * a reverted frame — Snapshot, any write sequence on cached accounts, RevertToSnapshot — leaves the journaled model related to
+      the reference after ITS revert (`C03_reverted_frame_simulates_reference_partial`), so frames can be chained;
+  NOT proved: one statement over arbitrary frame trees (nested frames inside kept frames), and `Commit` on the reference
   side (what Nibiru's Commit persists is proved in SDBCommit.lean); there the observational equality rests on the three-way
   correspondence run.
   The interpreter itself is the same code on both sides and is trusted.
@@ -305,5 +307,23 @@ example : Sim { txStore := { accts := [(1, { nonce := 1, codeHash := 7, balance 
 theorem C03_createAccount_simulates_reference_partial (s : S) (g : GethSpec.G) (h : Sim s g) (a : Nat)
     (hs : ∀ k, s.txStore.slot a k = 0) : Sim (createAccount s a) (GethSpec.apply g (.createAccount a)).1 :=
   sim_createAccount s g h a hs
+
+/-- **C03 (partial) — a reverted call frame.** From related states, with the accounts the frame writes cached (the interpreter
+    reads an account before it writes it) and well-formed snapshot ids on both sides: `Snapshot`, ANY sequence of writes,
+    `RevertToSnapshot` succeeds on Nibiru's journal and on the reference, and the two are related again afterwards — so the next
+    frame starts from related states too. -/
+theorem C03_reverted_frame_simulates_reference_partial {A : List Nat} (s : S) (g : GethSpec.G) (h : Sim s g) (hc : Cached A s)
+    (hrev : ∀ r ∈ s.revisions, r.1 < s.nextRev) (hg : GethSpec.IdsBelow g) (ws : List WOp)
+    (hw : ∀ w ∈ ws, ∀ a, w.acct = some a → a ∈ A) :
+    ∃ s3, revertToSnapshot (applyAll (snapshot s).1 ws) (snapshot s).2 = some s3 ∧
+      (GethSpec.apply (GethSpec.runOps (GethSpec.apply g .snapshot).1 (ws.map toSpec)) (.revert g.next)).2 = "ok" ∧
+      Sim s3 (GethSpec.apply (GethSpec.runOps (GethSpec.apply g .snapshot).1 (ws.map toSpec)) (.revert g.next)).1 := by
+  obtain ⟨s3, h3, hs⟩ := sim_reverted_frame s g h hc hrev ws hw
+  have hp : ∀ o ∈ ws.map toSpec, o.plain = true := by
+    intro o ho
+    obtain ⟨w, _, e⟩ := List.mem_map.mp ho
+    rw [← e]; exact toSpec_plain w
+  obtain ⟨r1, r2, r3, _⟩ := GethSpec.C03_spec_revert_restores g hg (ws.map toSpec) hp
+  exact ⟨s3, h3, r1, sim_congr_ref s3 g _ r3 r2 hs⟩
 
 end Nibiru.SDB
